@@ -102,8 +102,8 @@ impl Session {
         let spec = SchemeSpec {
             fields: rich_fields(true),
             funcs: function_family(),
-            lists: vec![Ty::Int, Ty::Ip],
-            listkinds: vec!["set".into(), "always".into()],
+            lists: vec![Ty::Int, Ty::Ip, Ty::Bytes],
+            listkinds: vec!["set".into(), "always".into(), "never".into()],
             nne: true,
         };
         // the C API builds the fields; functions and the harness list go in through the Rust side
@@ -119,8 +119,21 @@ impl Session {
                 }
             }
             add_extras(&mut b);
-            let ok = ffi::wirefilter_add_always_list_to_scheme(&mut b, ctype(&Ty::Ip));
-            assert!(ok);
+            // built-in lists through the C API: always for Ip, never for Bytes; a second list for a type that has one
+            // (also the harness list registered through the Rust side) must be refused with the Rust API's message
+            let mut twin = wirefilter::SchemeBuilder::new();
+            twin.add_list(Type::Int, SetList).unwrap();
+            for (k, (always, t)) in [(true, Ty::Ip), (false, Ty::Bytes), (false, Ty::Ip), (true, Ty::Bytes), (true, Ty::Int), (false, Ty::Int)].into_iter().enumerate() {
+                let before = last_error();
+                let ok = if always { ffi::wirefilter_add_always_list_to_scheme(&mut b, ctype(&t)) } else { ffi::wirefilter_add_never_list_to_scheme(&mut b, ctype(&t)) };
+                let rr = if always { twin.add_list(t.to_engine(), wirefilter::AlwaysList::default()) } else { twin.add_list(t.to_engine(), wirefilter::NeverList::default()) };
+                let rerr = rr.as_ref().err().map(|e| nul_sub(&e.to_string()));
+                if let Some((e, th)) = ev.as_mut() {
+                    e.push(json!({"ev": "call", "th": *th, "fn": if always { "add_always_list" } else { "add_never_list" }, "status": if ok { "ok" } else { "err" },
+                                  "rust_status": if rr.is_ok() { "ok" } else { "err" }, "same": ok == (k < 2), "le_before": before, "le_after": last_error(),
+                                  "rust_err": {"have": !ok && rerr.is_some(), "b": if ok { vec![] } else { rerr.unwrap_or_default() }}}));
+                }
+            }
             ffi::wirefilter_build_scheme(b)
         };
         let fscheme = mk_ffi(Some((events, th)));
@@ -136,6 +149,7 @@ impl Session {
         }
         add_extras(&mut rb);
         rb.add_list(Type::Ip, wirefilter::AlwaysList::default()).unwrap();
+        rb.add_list(Type::Bytes, wirefilter::NeverList::default()).unwrap();
         let rscheme = rb.build();
         let fs: &'static ffi::Scheme = unsafe { &*(&*fscheme as *const ffi::Scheme) };
         let os: &'static ffi::Scheme = unsafe { &*(&*other as *const ffi::Scheme) };
@@ -255,6 +269,10 @@ impl Session {
             let eq = fj == rj.as_bytes();
             let e2 = self.ev("serialize_filter", b2, Self::status(&sr.status), "ok", eq, None, json!({}));
             events.push(e2);
+            let b2 = last_error();
+            ffi::wirefilter_free_string(sr.json);
+            let e2 = self.ev("free_string", b2, "ok", "ok", true, None, json!({}));
+            events.push(e2);
             let b3 = last_error();
             let hr = ffi::wirefilter_get_filter_hash(ast);
             use std::hash::Hasher;
@@ -312,6 +330,19 @@ impl Session {
             };
             let e = self.ev("match", before, st, rstat, st == rstat && (st != "ok" || mr.matched == rres), if st == "err" { rerr } else { None }, json!({"text": text, "wrong_ctx": wrong_ctx}));
             events.push(e);
+            // a second match of the same compiled filter gives the same answer; then the filter is released
+            if !wrong_ctx && st == "ok" {
+                let before = last_error();
+                let m2 = ffi::wirefilter_match(f, &self.fctx);
+                let e = self.ev("match", before, Self::status(&m2.status), "ok", m2.matched == rres, None, json!({"text": text, "again": true}));
+                events.push(e);
+            }
+        }
+        if let Some(f) = cr.filter {
+            let before = last_error();
+            ffi::wirefilter_free_compiled_filter(f);
+            let e = self.ev("free_compiled_filter", before, "ok", "ok", true, None, json!({}));
+            events.push(e);
         }
     }
 
@@ -321,6 +352,10 @@ impl Session {
         let fj = crate::ffi_bytes(sr.json.ptr as *const u8, sr.json.len).to_vec();
         let rj = serde_json::to_string(&self.rctx).unwrap();
         let e = self.ev("serialize_ctx", before, Self::status(&sr.status), "ok", fj == rj.as_bytes(), None, json!({}));
+        events.push(e);
+        let before = last_error();
+        ffi::wirefilter_free_string(sr.json);
+        let e = self.ev("free_string", before, "ok", "ok", true, None, json!({}));
         events.push(e);
         rj
     }
@@ -345,6 +380,35 @@ impl Session {
         };
         let st = if ok { "ok" } else { "err" };
         let e = self.ev("deserialize_ctx", before, st, rstat, st == rstat, if st == "err" { rerr } else { None }, json!({"text": text}));
+        events.push(e);
+    }
+
+    pub fn free_ast(&mut self, ast: Box<ffi::FilterAst>, events: &mut Vec<Value>) {
+        let before = last_error();
+        ffi::wirefilter_free_parsed_filter(ast);
+        let e = self.ev("free_parsed_filter", before, "ok", "ok", true, None, json!({}));
+        events.push(e);
+    }
+
+    /// the catcher switched off and on again on this thread: settings calls never fail and leave the last error alone
+    pub fn toggle_catcher(&mut self, events: &mut Vec<Value>) {
+        for f in ["disable_panic_catcher", "enable_panic_catcher"] {
+            let before = last_error();
+            if f == "disable_panic_catcher" { ffi::panic::wirefilter_disable_panic_catcher() } else { ffi::panic::wirefilter_enable_panic_catcher() };
+            let e = self.ev(f, before, "ok", "ok", true, None, json!({}));
+            events.push(e);
+        }
+    }
+
+    /// version string: a static, non-empty, valid UTF-8 text, the same on every call
+    pub fn version(&mut self, events: &mut Vec<Value>) {
+        let before = last_error();
+        let a = ffi::wirefilter_get_version();
+        let b = ffi::wirefilter_get_version();
+        let ta = crate::ffi_bytes(a.ptr as *const u8, a.len).to_vec();
+        let tb = crate::ffi_bytes(b.ptr as *const u8, b.len).to_vec();
+        let same = !ta.is_empty() && ta == tb && std::str::from_utf8(&ta).map(|t| t.split('.').count() >= 2 && t.chars().next().unwrap().is_ascii_digit()).unwrap_or(false);
+        let e = self.ev("get_version", before, "ok", "ok", same, None, json!({"v": ta}));
         events.push(e);
     }
 
@@ -377,7 +441,11 @@ pub fn random_session(r: &mut StdRng, th: usize, steps: usize) -> Vec<Value> {
                     let nm = names[r.random_range(0..6)];
                     s.uses(&ast, &text, nm, &mut events);
                     let wrong = r.random_range(0..6) == 0;
-                    s.compile_and_match(ast, &text, wrong, &mut events);
+                    if r.random_range(0..7) == 0 {
+                        s.free_ast(ast, &mut events);
+                    } else {
+                        s.compile_and_match(ast, &text, wrong, &mut events);
+                    }
                 }
             }
             5 => {
@@ -388,7 +456,11 @@ pub fn random_session(r: &mut StdRng, th: usize, steps: usize) -> Vec<Value> {
                 let _ = s.parse(t, &mut events);
             }
             6 => {
-                // panics under the catcher: in parse, compile and match
+                // panics under the catcher: in parse, compile and match (sometimes right after the catcher was switched
+                // off and on again on this thread)
+                if r.random_range(0..2) == 0 {
+                    s.toggle_catcher(&mut events);
+                }
                 for text in ["boom_parse(i)", "boom_compile(i)", "boom_match(i)"] {
                     if let Some(ast) = s.parse(text.as_bytes(), &mut events) {
                         s.compile_and_match(ast, text, false, &mut events);
@@ -433,6 +505,13 @@ pub fn random_session(r: &mut StdRng, th: usize, steps: usize) -> Vec<Value> {
                 s.ctx_from_json(bad[r.random_range(0..4)], &mut events);
             }
             11 => s.clear(&mut events),
+            12 => {
+                if r.random_range(0..3) == 0 { s.version(&mut events) } else {
+                    let before = last_error();
+                    let e = s.ev("get_last_error", before, "ok", "ok", true, None, json!({}));
+                    events.push(e);
+                }
+            }
             _ => {
                 let before = last_error();
                 let e = s.ev("get_last_error", before, "ok", "ok", true, None, json!({}));
@@ -516,6 +595,144 @@ pub fn replay_ffiseq(v: &Value) -> (Value, Vec<String>) {
                 // the message echoes the offending input: the substituted text must occur in it
                 if !gb.windows(eb.len().max(1)).any(|w| w == &eb[..]) {
                     diffs.push(format!("after call {}: thread {} last error {:?} does not contain the expected text {:?}", k + 1, t + 1, String::from_utf8_lossy(&gb), eb));
+                }
+            }
+        }
+    }
+    (json!(logs), diffs)
+}
+
+/// spec -> impl for WfFfiCatch: a history of catcher switches, succeeding / failing calls and panicking user
+/// functions on several threads, executed in lock-step through the C API.  Runs in a child process (a panic that
+/// is not caught aborts the process; the parent records that as the observation).
+pub fn replay_fficatch(v: &Value) -> (Value, Vec<String>) {
+    use std::sync::{Arc, Barrier};
+    let hist: Vec<Value> = v["hist"].as_array().cloned().unwrap_or_default();
+    let nth = hist.iter().map(|h| h["after"].as_array().map(|a| a.len()).unwrap_or(1)).max().unwrap_or(1);
+    let barrier = Arc::new(Barrier::new(nth));
+    let hist = Arc::new(hist);
+    let mut handles = Vec::new();
+    for t in 1..=nth {
+        let barrier = barrier.clone();
+        let hist = hist.clone();
+        handles.push(std::thread::spawn(move || {
+            let mut b = ffi::wirefilter_create_scheme_builder();
+            let name = "i";
+            ffi::wirefilter_add_type_field_to_scheme(&mut b, name.as_ptr().cast(), name.len(), ffi::CType::from(Type::Int));
+            b.add_function("boom_parse", Boom("parse")).unwrap();
+            b.add_function("boom_compile", Boom("compile")).unwrap();
+            b.add_function("boom_match", Boom("match")).unwrap();
+            let scheme = ffi::wirefilter_build_scheme(b);
+            let sref: &'static ffi::Scheme = unsafe { &*(&*scheme as *const ffi::Scheme) };
+            let mut ctx = ffi::wirefilter_create_execution_context(sref);
+            ffi::wirefilter_add_int_value_to_execution_context(&mut ctx, name.as_ptr().cast(), name.len(), 1);
+            ffi::wirefilter_clear_last_error();
+            let mut snaps = Vec::new();
+            let mut wrong: Vec<String> = Vec::new();
+            let st = |s: &ffi::Status| match s { ffi::Status::Success => "ok", ffi::Status::Error => "err", ffi::Status::Panic => "panic" };
+            for (k, h) in hist.iter().enumerate() {
+                if h["th"].as_u64().unwrap() as usize == t {
+                    let exp = h["status"].as_str().unwrap().to_string();
+                    let got: String = match (h["call"].as_str().unwrap(), h["site"].as_str().unwrap_or("")) {
+                        ("enable", _) => { ffi::panic::wirefilter_enable_panic_catcher(); "ok".into() }
+                        ("disable", _) => { ffi::panic::wirefilter_disable_panic_catcher(); "ok".into() }
+                        ("clear", _) => { ffi::wirefilter_clear_last_error(); "ok".into() }
+                        ("ok", _) => {
+                            let src = "i == 1";
+                            let r = ffi::wirefilter_parse_filter(&scheme, src.as_ptr().cast(), src.len());
+                            match r.ast {
+                                None => st(&r.status).into(),
+                                Some(a) => {
+                                    let c = ffi::wirefilter_compile_filter(a);
+                                    match c.filter.as_ref() {
+                                        None => st(&c.status).into(),
+                                        Some(f) => {
+                                            let m = ffi::wirefilter_match(f, &ctx);
+                                            if !m.matched { wrong.push(format!("call {}: `i == 1` did not match a context with i = 1", k + 1)); }
+                                            st(&m.status).into()
+                                        }
+                                    }
+                                }
+                            }
+                        }
+                        ("fail", _) => {
+                            let src = "i == ";
+                            let r = ffi::wirefilter_parse_filter(&scheme, src.as_ptr().cast(), src.len());
+                            if r.ast.is_some() { "ok".into() } else { st(&r.status).into() }
+                        }
+                        ("boom", site) => {
+                            let src = format!("boom_{site}(i)");
+                            let r = ffi::wirefilter_parse_filter(&scheme, src.as_ptr().cast(), src.len());
+                            if site == "parse" {
+                                if r.ast.is_some() { "ok".into() } else { st(&r.status).into() }
+                            } else {
+                                match r.ast {
+                                    None => format!("parse-{}", st(&r.status)),
+                                    Some(a) => {
+                                        let c = ffi::wirefilter_compile_filter(a);
+                                        if site == "compile" {
+                                            if c.filter.is_some() { "ok".into() } else { st(&c.status).into() }
+                                        } else {
+                                            match c.filter.as_ref() {
+                                                None => format!("compile-{}", st(&c.status)),
+                                                Some(f) => {
+                                                    let m = ffi::wirefilter_match(f, &ctx);
+                                                    if m.matched { wrong.push(format!("call {}: a match that panicked reports matched = true", k + 1)); }
+                                                    st(&m.status).into()
+                                                }
+                                            }
+                                        }
+                                    }
+                                }
+                            }
+                        }
+                        _ => "?".into(),
+                    };
+                    if got != exp {
+                        wrong.push(format!("call {} ({} {} on thread {}): status {} expected {}", k + 1, h["call"], h["site"], t, got, exp));
+                    }
+                }
+                barrier.wait();
+                snaps.push(last_error());
+                barrier.wait();
+            }
+            (snaps, wrong)
+        }));
+    }
+    let mut diffs = Vec::new();
+    let mut logs: Vec<Vec<Value>> = Vec::new();
+    for h in handles {
+        match h.join() {
+            Ok((snaps, wrong)) => { logs.push(snaps); diffs.extend(wrong); }
+            Err(_) => { logs.push(vec![]); diffs.push("a panic unwound out of a C API call into the calling thread".to_string()); }
+        }
+    }
+    for (k, h) in hist.iter().enumerate() {
+        for t in 0..nth {
+            let exp = &h["after"][t];
+            let Some(got) = logs[t].get(k) else { continue };
+            let kind = exp["k"].as_str().unwrap_or("null");
+            if (kind == "null") != (got["null"] == true) {
+                diffs.push(format!("after call {} ({} on thread {}): thread {} last error null={} expected {}", k + 1, h["call"], h["th"], t + 1, got["null"], kind));
+                continue;
+            }
+            if kind != "null" {
+                let gb: Vec<u8> = serde_json::from_value(got["b"].clone()).unwrap_or_default();
+                if gb.is_empty() || gb.contains(&0) {
+                    diffs.push(format!("after call {}: thread {} last error empty or with interior NUL", k + 1, t + 1));
+                }
+                let text = String::from_utf8_lossy(&gb).to_string();
+                let want = match (kind, exp["site"].as_str().unwrap_or("")) {
+                    ("panic", "parse") => "boom in check_param",
+                    ("panic", "compile") => "boom in compile",
+                    ("panic", "match") => "boom in match",
+                    _ => "",
+                };
+                if kind == "panic" && !text.contains(want) {
+                    diffs.push(format!("after call {}: thread {} last error {:?} does not carry the panic message {:?}", k + 1, t + 1, text, want));
+                }
+                if kind == "err" && text.contains("boom in") {
+                    diffs.push(format!("after call {}: thread {} last error {:?} is a panic text, an error text was expected", k + 1, t + 1, text));
                 }
             }
         }
